@@ -136,7 +136,7 @@ func runC20(c *Ctx) {
 				fns = append(fns, f)
 			}
 		}
-		n := mapOrderAudit(c, "C20.seeded", fns, true)
+		n, _ := mapOrderAudit(c, "C20.seeded", fns, true)
 		c.Note("map ranges in package queue: %d", n)
 	}
 	// ---- clamp
